@@ -12,14 +12,20 @@ import (
 // wholeDefs lists the whole-variable writes to obj inside f (not in nested literals).
 func wholeDefs(f *ir.Func, obj types.Object) []ir.Write {
 	var out []ir.Write
-	// a variable captured from an enclosing function is defined there: search the whole declared function
-	scope, lits := f.Body, false
-	if v, ok := obj.(*types.Var); ok && f.Lit != nil && (v.Pos() < f.Lit.Pos() || v.Pos() >= f.Lit.End()) {
-		scope, lits = f.Top().Body, true
-	}
-	for _, w := range f.WritesIn(scope, lits) {
+	for _, w := range f.WritesIn(f.Body, false) {
 		if id, ok := ast.Unparen(w.LHS).(*ast.Ident); ok && f.ObjOf(id) == obj {
 			out = append(out, w)
+		}
+	}
+	if len(out) > 0 || f.Lit == nil {
+		return out
+	}
+	// a variable captured from an enclosing function is defined there: search the whole declared function
+	if _, ok := obj.(*types.Var); ok {
+		for _, w := range f.WritesIn(f.Top().Body, true) {
+			if id, ok := ast.Unparen(w.LHS).(*ast.Ident); ok && f.ObjOf(id) == obj {
+				out = append(out, w)
+			}
 		}
 	}
 	return out
